@@ -6,6 +6,8 @@ HOOKS = {
     "add_only": True,
 }
 ENGINES = [
+    {"name": "libfuzzer-sbeppc", "path": "harness/fuzz_sbeppc.cpp + vlib/checks/c09.py", "serves_properties": ["C09"],
+     "kind_free_text": "libFuzzer target wrapping sbeppc's main (macro rename) with an XML structure-aware custom mutator and an in-target oracle; Hypothesis argv generator"},
     {"name": "faultinject", "path": "harness/faultinject.c + vlib/checks/c20.py", "serves_properties": ["C20"],
      "kind_free_text": "LD_PRELOAD shim failing the k-th mkdir/open/write of sbeppc; exhaustive enumeration over k x errno x mode x schema"},
 ]
@@ -13,6 +15,14 @@ NOTES = "Technique family: property-based testing and fuzzing (Hypothesis, rapid
 _NOT_BUILT = "check not built yet in this session (designed in DESIGN.md section 4); not claimed until its machinery exists and passes on the unchanged tree"
 NOT_APPLICABLE = {("C%02d" % i): _NOT_BUILT for i in range(1, 21)}
 CHECKS = {
+    "C09": {
+        "engine": "libfuzzer-sbeppc",
+        "category": "exploration",
+        "text": "Coverage-guided fuzzing (libFuzzer, 16 workers) of sbeppc's real main() in process, built from the working tree with ASan+UBSan, libstdc++ assertions and assert() enabled; byte-level mutations plus a structure-aware XML mutator (attribute deletion/garbling with extreme numbers and format-string text, element moves/duplication/renaming, reference retargeting, include graphs incl. cyclic ones) seeded with the repository's valid and error schemas and generated valid schemas; Hypothesis-generated command lines against the hardened binary. The oracle is in the target: exit 0, or non-zero with an Error line and an empty output directory; any escaping exception, abort, sanitizer report or reproducible hang is a violation. Exploration is the right level: the input space is all byte strings, only search can sample it.",
+        "design_ref": "DESIGN.md 3.8, 4 (C09)",
+        "note": "Trusts that the instrumented build differs from the release build only by the added checks; libFuzzer campaigns are only approximately reproducible from the seed (the saved input is the reproducible unit); I/O failures while writing output (e.g. ENAMETOOLONG) are not treated as schema rejections.",
+        "technique": "coverage-guided fuzzing (libFuzzer + structure-aware mutator) with in-target oracle; Hypothesis argv generation",
+    },
     "C20": {
         "engine": "faultinject",
         "category": "fault_enumeration",
